@@ -223,7 +223,7 @@ impl Monitor for C19 {
         ]
     }
     fn rule(&self) -> &'static str {
-        "seeded random allowance-heavy histories; every third history starts from a synthesised pre-0.14 storage (contract version 0.9-0.13, random `allowance` table, no `allowance_spender` table) carried through the real migrate. After every call the point query, the paged owner listing and the paged spender listing are compared for all 36 pool pairs. distinct = (operation kind, outcome, allowance driven to zero?) and (migrate, from-version, table size class)"
+        "seeded random allowance-heavy histories; every third history starts from a synthesised pre-0.14 storage (contract version 0.9-0.13, random `allowance` table, no `allowance_spender` table) carried through the real migrate; half of those tables also hold 3-6 owners x 7-12 spenders outside the actor pool (more entries than any page or batch). After every call the point query, the paged owner listing and the paged spender listing are compared for all 36 pool pairs. distinct = (operation kind, outcome, allowance driven to zero?) and (migrate, from-version, table size class)"
     }
     fn assumptions(&self) -> Vec<&'static str> {
         vec![
